@@ -466,6 +466,29 @@ impl Make for T0 {
         types.append({"ident": ident, "panics": cur["panics"], "is_union": is_union})
 
     pass
+# A fixed matrix, independent of the random stream: every ordered pair (enum level rename_all_fields, variant level
+# rename_all) of distinct non-kebab rules on struct variants with multi-word fields, plus a variant without its own rule.
+MROWS = [r for r in RULES if "kebab" not in r[1]]
+MFIELDS = [("two_words_here", "i32"), ("q_r", "String"), ("long_one", "i64")]
+for k, rulef in enumerate(MROWS):
+    ident = f"M{k}"
+    vr, vs, vg = ["    #[default]\n    Alpha,"], [f"(var {hx('Alpha')} - 0 1 none unit)"], [f"{ident}::Alpha"]
+    for j, vrule in enumerate(MROWS + [("", "none")]):
+        if vrule == rulef:
+            continue
+        vid = VARIANT_IDENTS[1 + j] if j + 1 < len(VARIANT_IDENTS) else f"W{j}"
+        attr = f"    #[serde(rename_all = {q(vrule[0])})]\n" if vrule[1] != "none" else ""
+        vr.append(attr + f"    {vid} {{ " + ", ".join(f"{f}: {t}" for f, t in MFIELDS) + " },")
+        vs.append(f"(var {hx(vid)} - 0 0 {vrule[1]} (struct " +
+                  " ".join(f"(field {hx(f)} {({'String': 'string'}).get(t, t)} - 0 - () - 0)" for f, t in MFIELDS) + "))")
+        vg.append(f"{ident}::{vid} {{ " + ", ".join(f"{f}: {scalar_gen(t)}" for f, t in MFIELDS) + " }")
+    out.append("#[derive(Serialize, Deserialize, AvroSchema, Debug, Clone, PartialEq, Default)]\n" +
+               f"#[serde(rename_all_fields = {q(rulef[0])})]\npub enum {ident} {{\n" + "\n".join(vr) + "\n}\n" +
+               f"impl Make for {ident} {{\n    fn make(rng: &mut Rng, depth: usize) -> Self {{\n        let _ = depth;\n        match rng.below({len(vg)}) {{\n" +
+               "".join(f"            {n} => {g},\n" for n, g in enumerate(vg[:-1])) + f"            _ => {vg[-1]},\n        }}\n    }}\n}}\n")
+    descs.append(f"(enum {hx(ident)} {hx(ident)} - () none {rulef[1]} (variants {' '.join(vs)}))")
+    types.append({"ident": ident, "panics": False, "is_union": True})
+
 out.append("pub const DESCS: &[(&str, &str)] = &[\n" + "".join(f"    ({q(t['ident'])}, {q(d)}),\n" for t, d in zip(types, descs)) + "];\n")
 out.append("#[macro_export]\nmacro_rules! for_each_c17_type {\n    ($m:ident) => {\n" + "".join(f"        $m!({t['ident']});\n" for t in types) + "    };\n}\n")
 print("\n".join(out))
